@@ -334,6 +334,62 @@ fn masks(k: usize, rng: &mut Rng) -> Vec<u64> {
     ms
 }
 
+/// spans of the scalar literals inside a container literal of the generator's zoo
+fn scalar_spans(text: &str) -> Vec<(usize, usize)> {
+    let b = text.as_bytes();
+    let mut out = vec![];
+    let mut i = 0;
+    while i < b.len() {
+        let c = b[i];
+        if c == b'"' || c == b'\'' {
+            let mut j = i + 1;
+            while j < b.len() && b[j] != c {
+                j += 1;
+            }
+            out.push((i, j + 1));
+            i = j + 1;
+        } else if c.is_ascii_digit() {
+            let mut j = i;
+            while j < b.len() && (b[j].is_ascii_alphanumeric() || b[j] == b'.' || ((b[j] == b'+' || b[j] == b'-') && (b[j - 1] == b'e' || b[j - 1] == b'E'))) {
+                j += 1;
+            }
+            out.push((i, j));
+            i = j;
+        } else if c.is_ascii_alphabetic() {
+            let mut j = i;
+            while j < b.len() && b[j].is_ascii_alphanumeric() {
+                j += 1;
+            }
+            out.push((i, j));
+            i = j;
+        } else {
+            i += 1;
+        }
+    }
+    out
+}
+
+/// The value a literal denotes.  A scalar is evaluated alone (the constant the lexer/parser built).
+/// A container literal is *constructed at run time* from its scalars (every scalar replaced by a
+/// variable), so that its value does not come out of the constant folder under test.
+fn leaf_value(env: &Environment, lit: &str) -> Option<Value> {
+    let scalar = |t: &str| guarded(|| env.compile_expression(t).and_then(|e| e.eval(()))).ok().and_then(|r| r.ok());
+    if !(lit.starts_with('[') || lit.starts_with('(') || lit.starts_with('{')) {
+        return scalar(lit);
+    }
+    let mut src = String::new();
+    let mut ctx = BTreeMap::new();
+    let mut pos = 0;
+    for (j, (a, b)) in scalar_spans(lit).into_iter().enumerate() {
+        src.push_str(&lit[pos..a]);
+        src.push_str(&format!("w{}", j));
+        ctx.insert(format!("w{}", j), scalar(&lit[a..b])?);
+        pos = b;
+    }
+    src.push_str(&lit[pos..]);
+    guarded(|| env.compile_expression(&src).and_then(|e| e.eval(Value::from(ctx)))).ok().and_then(|r| r.ok())
+}
+
 fn run_case(c: &Case, rng: &mut Rng) -> String {
     let env = mk_env(&c.mode);
     let k = c.spans.len();
@@ -341,12 +397,11 @@ fn run_case(c: &Case, rng: &mut Rng) -> String {
     let mut ctx = BTreeMap::new();
     for (i, (a, b)) in c.spans.iter().enumerate() {
         let lit = &c.src[*a..*b];
-        let v = guarded(|| env.compile_expression(lit).and_then(|e| e.eval(())));
-        match v {
-            Ok(Ok(v)) => {
+        match leaf_value(&env, lit) {
+            Some(v) => {
                 ctx.insert(format!("v{}", i), v);
             }
-            _ => return format!("{}\tX\tbad-literal:{}", c.key(), lit),
+            None => return format!("{}\tX\tbad-literal:{}", c.key(), lit),
         }
     }
     let ctx = Value::from(ctx);
@@ -472,7 +527,7 @@ const CONTAINERS: [&str; 18] = [
 const SMALL: [&str; 4] = ["0", "1", "2", "3"];
 const ARITH: [&str; 8] = ["+", "-", "*", "/", "//", "%", "**", "~"];
 const CMPS: [&str; 8] = ["==", "!=", "<", "<=", ">", ">=", "in", "not in"];
-const KWNAMES: [&str; 4] = ["a", "b", "c", "a"];
+const KWNAMES: [&str; 4] = ["ka", "kb", "kc", "ka"];
 
 fn gen_lit(rng: &mut Rng) -> G {
     let r = rng.below(100);
@@ -511,6 +566,19 @@ fn numish(g: &G) -> bool {
     }
 }
 
+/// values that are equal or adjacent across kinds (int / float / bool / string forms)
+const EQUIV: [&str; 12] = ["1", "1.0", "true", "0", "0.0", "false", "2", "2.0", "\"a\"", "\"1\"", "none", "[1]"];
+
+/// operands of comparisons: often drawn from a small pool so that equal operands, equal-across-kind
+/// operands and container membership actually occur
+fn gen_cmp_operand(rng: &mut Rng, d: u32) -> G {
+    match rng.below(6) {
+        0 | 1 => G::Lit(rng.pick(&EQUIV).to_string()),
+        2 => G::List((0..1 + rng.below(3)).map(|_| G::Lit(rng.pick(&EQUIV).to_string())).collect()),
+        _ => gen(rng, d),
+    }
+}
+
 fn gen(rng: &mut Rng, depth: u32) -> G {
     if depth == 0 || rng.chance(1, 5) {
         if rng.chance(1, 40) {
@@ -531,11 +599,11 @@ fn gen(rng: &mut Rng, depth: u32) -> G {
             }
             G::Bin(op, Box::new(a), Box::new(b))
         }
-        30..=41 => G::Bin(*rng.pick(&CMPS), Box::new(gen(rng, d)), Box::new(gen(rng, d))),
+        30..=41 => G::Bin(*rng.pick(&CMPS), Box::new(gen_cmp_operand(rng, d)), Box::new(gen_cmp_operand(rng, d))),
         42..=51 => {
             let n = 2 + rng.below(2) as usize;
-            let first = gen(rng, d);
-            let ops = (0..n).map(|_| (*rng.pick(&CMPS), gen(rng, d))).collect();
+            let first = gen_cmp_operand(rng, d);
+            let ops = (0..n).map(|_| (*rng.pick(&CMPS), gen_cmp_operand(rng, d))).collect();
             G::Chain(Box::new(first), ops)
         }
         52..=66 => G::Bin(if rng.chance(1, 2) { "and" } else { "or" }, Box::new(gen(rng, d)), Box::new(gen(rng, d))),
@@ -543,7 +611,15 @@ fn gen(rng: &mut Rng, depth: u32) -> G {
         73..=81 => G::Neg(Box::new(if rng.chance(2, 3) { G::Lit(rng.pick(&INTS).to_string()) } else { gen(rng, d) })),
         82..=86 => G::List((0..rng.below(4)).map(|_| gen(rng, d.min(2))).collect()),
         87..=89 => G::Tuple((0..rng.below(4)).map(|_| gen(rng, d.min(2))).collect()),
-        90..=93 => G::Map((0..rng.below(3)).map(|_| (gen(rng, d.min(1)), gen(rng, d.min(2)))).collect()),
+        90..=93 => G::Map(
+            (0..rng.below(4))
+                .map(|_| {
+                    // colliding keys (equal across kinds, repeated) exercise insertion order
+                    let k = if rng.chance(1, 2) { G::Lit(rng.pick(&EQUIV).to_string()) } else { gen(rng, d.min(1)) };
+                    (k, gen(rng, d.min(2)))
+                })
+                .collect(),
+        ),
         94..=97 => {
             let pos = (0..rng.below(3)).map(|_| gen(rng, d.min(2))).collect();
             let kws = (0..1 + rng.below(3))
@@ -701,13 +777,13 @@ const SEEDS: &[&str] = &[
     "`[1]` + `[2]`", "`(1,)` + `(2,)`", "`[1]` + `(2,)`", "`\"a\"` * -`1`", "`none` + `1`", "`true` + `1`",
     "`true` + `true`", "`\"a\"` < `\"b\"`", "`\"a\"` < `1`", "`[1]` < `[2]`", "`none` == `none`",
     "not `0`", "not `1`", "not `\"\"`", "not `[]`", "not `none`", "not u", "not not `2`",
-    "kw(a=`1`)", "kw(a=`1`, b=`\"x\"`)", "kw(`1`, a=`2`)", "kw(a=`1`, a=`2`)", "kw(b=`1`, a=`2`)",
-    "kw(a=`[1, 2]`)", "kw(a=[`1`, `2`])", "kw(a=`1` + `1`)", "kw(a=`1`, b=`1` + `1`)", "kw(a=-`1`)",
-    "kw(a=`none`)", "kw(a=`1.5`)", "kw(a=`0` and `1`)", "kw(`0` and `1`, a=`1`)", "kw(a=`1` // `0`)",
-    "`1`|kwf(a=`2`)", "(`1` + `1`)|kwf(a=`2`, b=`3`)", "`\"x\"`|kwf(a=`none`)", "kw(a=`9223372036854775808`)",
-    "kw(a=`340282366920938463463374607431768211455`)", "kw()", "kw(`1`)",
+    "kw(ka=`1`)", "kw(ka=`1`, kb=`\"x\"`)", "kw(`1`, ka=`2`)", "kw(ka=`1`, ka=`2`)", "kw(kb=`1`, ka=`2`)",
+    "kw(ka=`[1, 2]`)", "kw(ka=[`1`, `2`])", "kw(ka=`1` + `1`)", "kw(ka=`1`, kb=`1` + `1`)", "kw(ka=-`1`)",
+    "kw(ka=`none`)", "kw(ka=`1.5`)", "kw(ka=`0` and `1`)", "kw(`0` and `1`, ka=`1`)", "kw(ka=`1` // `0`)",
+    "`1`|kwf(ka=`2`)", "(`1` + `1`)|kwf(ka=`2`, kb=`3`)", "`\"x\"`|kwf(ka=`none`)", "kw(ka=`9223372036854775808`)",
+    "kw(ka=`340282366920938463463374607431768211455`)", "kw()", "kw(`1`)",
     "u", "u and `1`", "`0` and u", "`1` or u", "u or `1`", "`1` and u", "`1` + u", "u == `1`", "`1` in u",
-    "u in `[1]`", "`\"a\"` ~ u", "-u", "[u]", "{`1`: u}", "kw(a=u)", "`1` < `2` < u", "`1` == u",
+    "u in `[1]`", "`\"a\"` ~ u", "-u", "[u]", "{`1`: u}", "kw(ka=u)", "`1` < `2` < u", "`1` == u",
 ];
 
 fn seed_case(mode: &str, s: &str) -> Case {
@@ -738,7 +814,7 @@ fn main() {
     match args.get(1).map(|s| s.as_str()) {
         Some("gen") => {
             let tier = args.get(2).map(|s| s.as_str()).unwrap_or("quick");
-            let n = if tier == "thorough" { 150000 } else { 12000 };
+            let n = if tier == "thorough" { 400000 } else { 12000 };
             for (i, s) in SEEDS.iter().enumerate() {
                 let uses_u = s.contains('u') && s.split(|c: char| !c.is_alphanumeric()).any(|w| w == "u");
                 if uses_u {
